@@ -332,12 +332,17 @@ class HistoryMachine(RuleBasedStateMachine):
         return {"log": self.log}
 
     def outcome(self):
+        try:
+            nt = bool(self.is_nontrivial())
+            key = self.distinct_key()
+        except AttributeError:  # the history died while it was being built
+            nt, key = bool(self.viol), None
         return {
             "violation": self.viol,
             "labels": sorted(self.labels),
-            "nontrivial": bool(self.is_nontrivial()),
-            "keys": sorted(self.keys) or None if self.is_nontrivial() else None,
-            "key": self.distinct_key(),
+            "nontrivial": nt,
+            "keys": (sorted(self.keys) or None) if nt else None,
+            "key": key,
             "excluded_known": getattr(self, "excluded_known", 0),
             "weight": 1,
             "discard": self.mc is None,
